@@ -308,7 +308,7 @@ class Pool:
                 key = id(r)
                 ent = self.masks.get(key)
                 if ent is None or ent[0] is not r:
-                    ent = self.masks[key] = (r, (r if ispix(r) else r.to_pixel(self.wcs)).to_mask(mode=['center', 'exact', 'subpixels'][k % 3]
+                    ent = self.masks[key] = (r, (r if ispix(r) else r.to_pixel(self.wcs)).to_mask(mode=['center', 'exact', 'subpixels'][len(type(r).__name__) % 3]      # fixed per class: the mask outlives this call
                                                                                                  if type(r).__name__.startswith(('Circle', 'Ellipse')) and 'Annulus' not in type(r).__name__
                                                                                                  else 'center'))
                 m = ent[1]
